@@ -30,3 +30,7 @@ Definition py_rshift (a y : Z) : result Z := if y <? 0 then Err EValue else Ok (
 (* plain-int shifts (tree.py) *)
 Definition py_shl (a y : Z) : result Z := py_lshift a y.
 Definition py_shr (a y : Z) : result Z := py_rshift a y.
+(* list indexing with a non-negative index: IndexError when out of range (negative indices are not used by the
+   translated code and are reported as an error) *)
+Definition py_nth {A} (l : list A) (k : Z) : result A :=
+  if k <? 0 then Err EOther else match nth_error l (Z.to_nat k) with Some x => Ok x | None => Err EIndex end.
